@@ -146,7 +146,26 @@ Definition sub_comb (ws : str) (x : str) : str := sub_comb_fuel (S (length x)) w
 
 Definition strip_ws (x : str) : str := strip is_space x.
 
+(* re.sub(r'(\[[^\]]*\])|  ', keep group 1 or one blank): double blanks are squeezed except inside [...] *)
+Fixpoint squeeze_blanks (fuel : nat) (x : str) : str :=
+  match fuel with
+  | O => x
+  | S f =>
+      match x with
+      | "[" :: r =>
+          let '(inside, rest) := span (fun c => negb (Ascii.eqb c "]")) r in
+          match rest with
+          | "]" :: rest' => "[" :: inside ++ "]" :: squeeze_blanks f rest'
+          | _ => "[" :: squeeze_blanks f r           (* no closing bracket: '[' is an ordinary character *)
+          end
+      | " " :: " " :: r => " " :: squeeze_blanks f r
+      | c :: r => c :: squeeze_blanks f r
+      | [] => []
+      end
+  end.
+
 Definition ident_fmt (ws nl : str) (parsed : list part) : str :=
   let name := join $",$$" (map (fun p => strip_ws (concat_str p)) parsed) in
   let name := sub_comb ws name in
-  str_replace $"  " $" " (str_replace $"$$" nl name).
+  let name := str_replace $"$$" nl name in
+  squeeze_blanks (S (length name)) name.
